@@ -174,3 +174,50 @@ def setup_iv0(I):
     cls = I.load_module("mdpax.problems.forest").globals["Forest"]
     return Ctx(self=Obj(cls, {}, label="problem"), _args=[arr_from_list([z3.Int("s0")])])
 contract("mdpax.core.problem.Problem.initial_value", setup=setup_iv0, ensures={"zero": lambda c, q: toz3(c.result) == 0})
+
+# ------------------------------------------------------------------ Hendrix: the documented four-case decomposition of the joint distribution of units issued
+# (plumbing only: Poisson pmf/cdf uninterpreted, the total-demand-for-A table pz - filled by Python loops over scipy calls - is an arbitrary table;
+#  its contents and the truncation are covered by the bounded harness)
+def setup_hx_rep(m):
+    def setup(I):
+        cls = I.load_module("mdpax.problems.perishable_inventory.hendrix_two_product").globals["HendrixTwoProductPerishable"]
+        Qa, Qb = z3.Ints("Qa Qb"); ma, mb = z3.Reals("mean_a mean_b"); I.assume(z3.And(Qa >= 1, Qb >= 1, ma > 0, mb > 0))
+        o = Obj(cls, {"max_useful_life": m, "max_order_quantity_a": Qa, "max_order_quantity_b": Qb, "demand_poisson_mean_a": ma, "demand_poisson_mean_b": mb}, label="problem")
+        I.call(I.getattr(o, "_setup_before_space_construction"), [], {})            # real hook: max_stock_a/b, max_demand, component lookups
+        I.call(I.getattr(o, "_construct_random_event_space"), [], {})               # real: the event index function
+        Sa, Sb, MD = toz3(o.attrs["max_stock_a"]), toz3(o.attrs["max_stock_b"]), toz3(o.attrs["max_demand"])
+        PZ = z3.Function("pz_table", z3.IntSort(), z3.IntSort(), z3.RealSort())
+        o.attrs["pz"] = SArr((MD + 1, Sb + 1), lambda idx: PZ(toz3(idx[0]), toz3(idx[1])))
+        sa = [z3.Int(f"a{i}") for i in range(m)]; sb = [z3.Int(f"b{i}") for i in range(m)]; ia, ib = z3.Ints("issued_a issued_b")
+        for x in sa: I.assume(z3.And(x >= 0, x <= Qa))
+        for x in sb: I.assume(z3.And(x >= 0, x <= Qb))
+        I.assume(z3.And(ia >= 0, ia <= Sa, ib >= 0, ib <= Sb))                      # a listed event
+        return Ctx(self=o, _args=[arr_from_list(sa + sb), arr_from_list([z3.Int("qa"), z3.Int("qb")]), arr_from_list([ia, ib])], sa=sum(sa[1:], sa[0]), sb=sum(sb[1:], sb[0]),
+                   ia=ia, ib=ib, Sa=Sa, Sb=Sb, MD=MD, PZ=PZ, ma=ma, mb=mb, I=I)
+    return setup
+def hx_spec(c):
+    PA = lambda k: c.I.dist["POISPMF"](c.ma, k); PB = lambda k: c.I.dist["POISPMF"](c.mb, k); CDFA = lambda k: c.I.dist["POISCDF"](c.ma, k)
+    b = lambda cond: z3.If(cond, z3.RealVal(1), z3.RealVal(0))
+    tail = R.mk("sum", c.MD + 1, lambda z: c.PZ(z, c.sb) * b(z >= c.sa))           # P(total demand for A incl. substitution >= stock of A), truncated table
+    return (b(z3.And(c.ia < c.sa, c.ib < c.sb)) * PA(c.ia) * PB(c.ib)
+            + b(z3.And(c.ia == c.sa, c.ib < c.sb)) * (1 - CDFA(c.sa - 1)) * PB(c.ib)
+            + b(z3.And(c.ia < c.sa, c.ib == c.sb)) * c.PZ(c.ia, c.sb)
+            + b(z3.And(c.ia == c.sa, c.ib == c.sb)) * tail)
+contract(f"{HX}.random_event_probability", scenarios=[(f"m{m}.", setup_hx_rep(m)) for m in (1, 2)],
+    ensures={"four_case_decomposition_of_units_issued": lambda c, q: scalar(c.result) == hx_spec(c)})
+
+def setup_hx_case(I):
+    c = setup_hx_rep(1)(I); sa, sb = z3.Ints("stock_a stock_b"); I.assume(z3.And(sa >= 0, sa <= c.Sa, sb >= 0, sb <= c.Sb))
+    c["sa"], c["sb"] = sa, sb; c["_args"] = [sa, sb]
+    return c
+def case_post(k):
+    def post(c, q):
+        PA = lambda x: c.I.dist["POISPMF"](c.ma, x); PB = lambda x: c.I.dist["POISPMF"](c.mb, x); CDFA = lambda x: c.I.dist["POISCDF"](c.ma, x)
+        b = lambda cond: z3.If(cond, z3.RealVal(1), z3.RealVal(0)); ia, ib = c.ia, c.ib
+        want = [b(z3.And(ia < c.sa, ib < c.sb)) * PA(ia) * PB(ib), b(z3.And(ia == c.sa, ib < c.sb)) * (1 - CDFA(c.sa - 1)) * PB(ib),
+                b(z3.And(ia < c.sa, ib == c.sb)) * c.PZ(ia, c.sb), b(z3.And(ia == c.sa, ib == c.sb)) * R.mk("sum", c.MD + 1, lambda z: c.PZ(z, c.sb) * b(z >= c.sa))][k]
+        r = c.result
+        return z3.And(toz3(r.shape[0]) == c.Sa + 1, toz3(r.shape[1]) == c.Sb + 1, toz3(r.get((ia, ib))) == want)
+    return post
+for k, nm in enumerate(["_get_probs_ia_lt_stock_a_ib_lt_stock_b", "_get_probs_ia_eq_stock_a_ib_lt_stock_b", "_get_probs_ia_lt_stock_a_ib_eq_stock_b", "_get_probs_ia_eq_stock_a_ib_eq_stock_b"]):
+    contract(f"{HX}.{nm}", setup=setup_hx_case, ensures={"documented_case_formula": case_post(k)})
